@@ -1261,7 +1261,8 @@ class sptensor:
         # Assemble return array
         nvals = wsubs.shape[0]
         vals = np.zeros((nvals, 1))
-        vals[matching_indices] = self.vals[matching_indices]
+        if matching_indices.size > 0:
+            vals[valid] = self.vals[matching_indices]
         return vals
 
     def mttkrp(
